@@ -41,8 +41,8 @@ def setup_worker() -> None:
     from zorg.domain.models import Note
     from zorg.service.compiler._file_compiler import ZorgFileCompiler as Z
 
-    harness.COUNTERS.watch("to_string", Note.to_string)
-    harness.COUNTERS.watch("_add_note", Z._add_note)
+    harness.COUNTERS.watch_attr(Note, "to_string")
+    harness.COUNTERS.watch_attr(Z, "_add_note")
 
 
 def plan(tier: str, seed: int) -> list[dict]:
